@@ -123,13 +123,19 @@ impl<'a> TerminalWriter<'a> {
     //@+     // a cell without a position never fails; it may restyle skipped cells but never changes any content
     //@+     cell.place(&old(self).ctx, old(self).surf.g_shape().width, old(self).wraps, old(self).cursor) is None ==> r,
     //@+     cell.place(&old(self).ctx, old(self).surf.g_shape().width, old(self).wraps, old(self).cursor) is None ==> kinds_kept(old(self).surf.g_data(), final(self).surf.g_data()),
+    //@+     // "out of space" is permanent: a put fails only once the cursor has left the window downwards (or the window has no
+    //@+     // columns), the cursor never moves back up, and from such a state no put changes any cell - which is why the
+    //@+     // io::Write adapters may drop the rest of a buffer after a failed put without making the cells depend on the split
+    //@+     !r ==> final(self).cursor.row >= old(self).surf.g_shape().height || old(self).surf.g_shape().width == 0,
+    //@+     final(self).cursor.row >= old(self).cursor.row,
+    //@+     old(self).cursor.row >= old(self).surf.g_shape().height || old(self).surf.g_shape().width == 0 ==> final(self).surf.g_data() == old(self).surf.g_data(),
     //@proof start let ghost win = old(self).surf.win(); let ghost d0 = old(self).surf.g_data(); let ghost sh0 = old(self).surf.g_shape();
     //@proof before:/let\sstart\s=\sshape\.offset/ proof { lemma_mul_bound(cursor_start.row as int, shape.row_stride as int); lemma_mul_bound(cursor_start.col as int, shape.col_stride as int); lemma_mul_bound(self.cursor.row as int, shape.row_stride as int); lemma_mul_bound(self.cursor.col as int, shape.col_stride as int); }
-    //@loop 1 invariant shape == sh0, rep(shape, win, data@.len()), data@.len() == d0.len(), frame(shape, win, d0, data@), kinds_kept(d0, data@),
-    //@loop 2 invariant shape == sh0, row < shape.height, rep(shape, win, data@.len()), data@.len() == d0.len(), frame(shape, win, d0, data@), kinds_kept(d0, data@),
+    //@loop 1 invariant shape == sh0, rep(shape, win, data@.len()), data@.len() == d0.len(), frame(shape, win, d0, data@), kinds_kept(d0, data@), (cursor_start.row >= shape.height || shape.width == 0) ==> data@ == d0,
+    //@loop 2 invariant shape == sh0, cursor_start.row <= row < shape.height, (cursor_start.row >= shape.height || shape.width == 0) ==> data@ == d0, rep(shape, win, data@.len()), data@.len() == d0.len(), frame(shape, win, d0, data@), kinds_kept(d0, data@),
     //@proof loop2.start proof { let p = Position { row, col }; lemma_offset(shape, win, data@.len(), p); assert(is_win_offset(shape, win, spec_offset(shape, p))); }
     //@subst N16 glyph fallback (closure recursion over chars()) routed to the unreachable stub /return glyph\s*\.fallback_str\(\)\s*\.chars\(\)\s*\.all\(\|c\| self\.put_cell\(Cell::new_char\(cell\.face, c\)\)\);/return self.put_glyph_fallback(&cell);/
-    //@subst N12 std::cmp::min routed through min_usize /\bmin\(self\.cursor\.row \+ 1, shape\.height\)/min_usize(self.cursor.row + 1, shape.height)/
+    //@subst? N12 std::cmp::min routed through min_usize /\bmin\(self\.cursor\.row \+ 1, shape\.height\)/min_usize(self.cursor.row + 1, shape.height)/
     //@subst N8 `(start..end).contains(&offset)` spelled as the two comparisons /\(start\.\.end\)\.contains\(&offset\)/(start <= offset && offset < end)/
 }
 
